@@ -426,6 +426,10 @@ class Fn:
             if hasattr(e, a):
                 setattr(new, a, getattr(e, a))
         new._orig = getattr(e, "_orig", (self.fi, e))  # type: ignore[attr-defined]
+        if isinstance(new, ast.Call) and isinstance(new.func, ast.Lambda):
+            r = beta(new.func, new.args, new.keywords)
+            if r is not None:
+                return r
         return new
 
     def summarise(self, call: ast.Call, use_stmt, depth: int, keep: set[str]):
@@ -527,6 +531,65 @@ def path_conditions_nokill(fn_node: ast.AST) -> dict[int, list]:
     if not isinstance(fn_node, ast.Lambda):
         block(fn_node.body, [])
     return out
+
+
+def beta(lam: ast.Lambda, args: list, keywords: list) -> ast.AST | None:
+    """`(lambda p: body)(a)` -> body[p := a] (positional / keyword arguments, defaults)."""
+    a = lam.args
+    if a.vararg or a.kwarg or any(isinstance(x, ast.Starred) for x in args) or any(k.arg is None for k in keywords):
+        return None
+    ps = [p.arg for p in [*a.posonlyargs, *a.args]]
+    allp = ps + [p.arg for p in a.kwonlyargs]
+    if len(args) > len(ps):
+        return None
+    env = dict(zip(ps, args))
+    for k in keywords:
+        if k.arg not in allp or k.arg in env:
+            return None
+        env[k.arg] = k.value
+    for p, d in zip(ps[len(ps) - len(a.defaults):], a.defaults):
+        env.setdefault(p, d)
+    for p, d in zip(a.kwonlyargs, a.kw_defaults):
+        if d is not None:
+            env.setdefault(p.arg, d)
+    if any(p not in env for p in allp):
+        return None
+    return substitute(lam.body, env)
+
+
+def show(e: ast.AST | None, limit: int = 90) -> str:
+    """Normalised text of an (expanded) expression; sub-expressions that stand for a local are printed as that local."""
+    if e is None:
+        return "?"
+
+    class Tr(ast.NodeTransformer):
+        def visit(self, n):
+            al = getattr(n, "_alias", "")
+            if al and not isinstance(n, ast.Name):
+                return ast.Name(id=al, ctx=ast.Load())
+            return super().visit(n)
+
+    import copy as _copy
+
+    def cp(n):
+        if isinstance(n, list):
+            return [cp(x) for x in n]
+        if not isinstance(n, ast.AST):
+            return n
+        al = getattr(n, "_alias", "")
+        if al:
+            return ast.Name(id=al, ctx=ast.Load())
+        new = type(n)()
+        for f in n._fields:
+            if hasattr(n, f):
+                setattr(new, f, cp(getattr(n, f)))
+        return new
+
+    try:
+        text = " ".join(ast.unparse(cp(e)).split())
+    except Exception:  # noqa: BLE001
+        text = type(e).__name__
+    return text if len(text) <= limit else text[: limit - 3] + "..."
 
 
 def alias_names(v: ast.AST) -> list[str]:
